@@ -155,6 +155,9 @@ pub fn install_quiet_hook() {
             }
             if std::env::var("SIM_VERBOSE_PANIC").is_ok() {
                 eprintln!("panic: {msg} @ {loc}");
+                if std::env::var("SIM_VERBOSE_PANIC").map(|v| v == "bt").unwrap_or(false) {
+                    eprintln!("{}", std::backtrace::Backtrace::force_capture());
+                }
             }
         }));
     });
